@@ -750,9 +750,13 @@ class ResNetwork(GeoNetwork):
         if not 0 <= i < self.N:
             raise IndexError(f"Node index {i} out of range.")
         Is = It = FIELD(1.0)
+        admittance = to_cy(self.get_admittance(), FIELD)
+        R = to_cy(self.get_R(), FIELD)
+        if admittance.shape != (self.N, self.N) or R.shape != (self.N, self.N):
+            raise ValueError("admittance and R do not match the current "
+                             "adjacency; call update_resistances().")
         return _vertex_current_flow_betweenness(
-            self.N, Is, It,
-            to_cy(self.get_admittance(), FIELD), to_cy(self.get_R(), FIELD), i)
+            self.N, Is, It, admittance, R, i)
 
     def edge_current_flow_betweenness(self):
         """The electrial version of Newmann's edge betweeness
@@ -780,9 +784,13 @@ class ResNetwork(GeoNetwork):
         # set currents
         Is = It = FIELD(1)
 
+        admittance = to_cy(self.get_admittance(), FIELD)
+        R = to_cy(self.get_R(), FIELD)
+        if admittance.shape != (self.N, self.N) or R.shape != (self.N, self.N):
+            raise ValueError("admittance and R do not match the current "
+                             "adjacency; call update_resistances().")
         return _edge_current_flow_betweenness(
-            self.N, Is, It,
-            to_cy(self.get_admittance(), FIELD), to_cy(self.get_R(), FIELD))
+            self.N, Is, It, admittance, R)
 
 
 ###############################################################################
